@@ -4,9 +4,10 @@
 name=$1; patch=$(realpath $2); out=$3
 tmp=$(mktemp -d /tmp/runpatch.XXXXXX)
 rsync -a --exclude .git /repo/ $tmp/repo/
-mkdir -p $tmp/verif/spec; cp /verif/spec/*.json $tmp/verif/spec/; cp /verif/known_findings.json $tmp/verif/
+S=${SNAP:-/verif}
+mkdir -p $tmp/verif/spec; cp $S/spec/*.json $tmp/verif/spec/; cp $S/known_findings.json $tmp/verif/
 if (cd $tmp/repo && patch -p1 -s < $patch) ; then
-  (cd /verif && ${DHCPVERIF_BIN:-bin/dhcpverif} check all --repo $tmp/repo --verif $tmp/verif > $out/$name.txt 2>&1)
+  (cd /verif && ${DHCPVERIF_BIN:-$S/bin/dhcpverif} check all --repo $tmp/repo --verif $tmp/verif > $out/$name.txt 2>&1)
   rc=$?
   # an analyser that terminates abnormally decides nothing: shown as an alarm of every property (C00 = all), never as silence
   if [ $rc -ne 0 ] && [ $rc -ne 1 ]; then echo "VIOLATION property=C00 ANALYSER-TERMINATED exit=$rc" >> $out/$name.txt; fi
